@@ -1,6 +1,8 @@
 import VerifModel.Base.Proto
 import VerifModel.Model.Aggregator
 import VerifModel.Model.Preagg
+import VerifModel.Model.PreaggData
+import VerifModel.Driver.Data
 import VerifModel.Spec.Stats
 /- Driver ops for the aggregators and the -T pre-aggregation (C15). -/
 namespace VerifModel.Driver.Agg
@@ -64,10 +66,10 @@ def handle (args : List String) : Option String :=
             | some (.quantile q) => s!"quantile:{XR.fin q}"
             | some a => (Agg.names.find? (fun p => p.2 == a)).elim "?" (·.1))
   | ["aggaxis", name, k, dims, data] => do
-      let (k, dims, data) := (← k.toNat?, ← parseDims? dims, ← parseVec? data)
+      let (k, dims, data) := (← k.toInt?, ← parseDims? dims, ← parseVec? data)
       match Agg.get name with
       | none => some "ERR"
-      | some a => some (match Arr.aggAxis (Agg.apply floatTr a) k ⟨dims, data⟩ with
+      | some a => some (match Agg.callAxis floatTr a k ⟨dims, data⟩ with
                         | none => "EXC"
                         | some r => showArr r)
   | ["preagg", axis, name, h, coords, vals] => do
@@ -108,6 +110,29 @@ def handle (args : List String) : Option String :=
               | none => "UNMODELLED"
               | some none => "EXC"
               | some (some r) => showArr r)
+  | ["tdata2", _src, axis, name, h, cfg, inputs, reqs] => do
+      -- -T with several inputs: the `data` encoding of Driver/Data.lean plus axis, aggregator, window length
+      let ((scale, k), h) := (← axisOf? axis, ← parseXR? h)
+      let ins ← (Driver.Data.splitNE inputs "#").mapM Driver.Data.parseInput?
+      let hasClim := (Driver.Data.splitNE (if cfg == "-" then "" else cfg) ";").any (· == "clim=1")
+      let (scored, clim) := if hasClim then (ins.dropLast, ins.getLast?) else (ins, none)
+      let c ← Driver.Data.parseCfg? cfg clim
+      match Agg.get name with
+      | none => some "ERR"
+      | some a =>
+        match Data.init scored c with
+        | .error _ => some "ERR init"
+        | .ok D0 =>
+          let head := s!"T={showVec D0.times};L={showVec D0.leads};X={showVec (D0.locs.map (·.id))}"
+          let one (s : String) : String :=
+            match Driver.Data.parseReq? D0 s with
+            | none => "ERR bad-req"
+            | some r =>
+              match PreaggData.getScoresT (Agg.apply floatTr a) scale h k scored c r with
+              | none => "EXC"
+              | some (.error _) => "ERR"
+              | some (.ok cols) => Driver.Data.showCols cols
+          some (" | ".intercalate (head :: (Driver.Data.splitNE reqs ";").map one))
   | "tcli" :: _ => some "UNMODELLED"      -- command-line stream: only the oracle speaks (the driver loop is C13's model)
   | ["spec_agg", name, v] => do
       let v ← parseVec? v
